@@ -9,16 +9,27 @@
         is kept; the genes chosen since the last argsort have been popped from it.
      2. the two `break`s (utility_array.max() <= 0, all slots filled) - evaluated only here,
         i.e. BETWEEN batches, never inside one.
-     3. _choose_gene: `for ii in range(genes_at_a_time): _choose_one_gene(...)`; each call does
-        sorted_utility_idx.pop(-1) - IndexError on an empty list -, appends the gene, raises
-        RuntimeError("chose gene twice") if it is already in marker_gene_idx_set, sets its
-        utility to -1 and updates marker_counts.  Nothing is recomputed inside the batch: the k
-        genes are the k last elements of the list as it stood when the batch started, zero
-        utility or already chosen genes included.
+     3. _choose_gene (chosen_idx = None): `for ii in range(genes_at_a_time)`:
+          if len(sorted_utility_idx) == 0: break
+          if utility_array[sorted_utility_idx[-1]] <= 0: break
+          _choose_one_gene(...)
+        i.e. the batch STOPS EARLY as soon as the list is empty or the candidate about to be popped
+        has utility <= 0 (it marks no unfilled slot, or - utility -1 - it was already chosen).
+        Otherwise _choose_one_gene does sorted_utility_idx.pop(-1), appends the gene, raises
+        RuntimeError("chose gene twice") if it is already in marker_gene_idx_set, sets its utility
+        to -1 and updates marker_counts.  Nothing is recomputed inside the batch: the genes of a
+        batch are the last elements of the list as it stood when the batch started, as long as
+        their utility is positive and at most k of them.
+        (Before the repair of F23/F24/F25 the two tests were missing: a batch always popped k
+        entries, whatever their utility, and raised IndexError on an empty list.)
+   pop(-1) is only reached on a non-empty list, so IndexError is not an outcome of the model; the
+   `raise RuntimeError` statement is still in the code: its outcome (KTwice) is kept and PROVED
+   unreachable (Proofs/SelectionKP.v batch_never_raises).
    sorted_utility_idx is modelled by the list of its members (`pool`); its order among equal
    utilities (np.argsort tie order) is NOT modelled: the genes popped, grouped per iteration,
    are an input (the recorded trace) and a pop is legal only if the gene is a member of the
-   pool whose utility is maximal among the members.  Definitions only. *)
+   pool whose utility is maximal among the members.  The early stop does not depend on the tie
+   order: every candidate for the last place has the same (maximal) utility.  Definitions only. *)
 From Coq Require Import ZArith List Bool Arith.
 From CTM Require Import Base.Sx Base.SortX Model.Tree Model.Selection.
 Import ListNotations.
@@ -39,9 +50,8 @@ Notation choose := (choose marks).
 Notation finished := (finished n_genes pairs).
 Notation start := (start n_genes pairs marks n).
 
-(* the two exceptions a batch can end in *)
+(* the exception a batch can end in (statement `raise RuntimeError` of _choose_one_gene) *)
 Inductive kerr :=
-| KEmpty                (* IndexError: pop from empty list *)
 | KTwice (g : nat).     (* RuntimeError: Something is wrong; chose gene g twice *)
 
 (* sorted_utility_idx.pop(to_pop) / .pop(-1): the member leaves the list *)
@@ -58,20 +68,30 @@ Definition refresh (st : state) (pool : list nat) : list nat :=
 
 Inductive pres := POk (st : state) (pool : list nat) | PErr (e : kerr) | PIllegal.
 
-(* _choose_gene(chosen_idx=None, genes_at_a_time=j): j pops; `batch` = the genes popped in this
-   call, in order (on an exception: up to and including the pop that raised) *)
+(* `utility_array[sorted_utility_idx[-1]] <= 0` on a non-empty list: the last element carries the
+   maximal utility of the members, so the test says that NO member has a positive utility *)
+Definition exhausted (st : state) (pool : list nat) : bool :=
+  forallb (fun h => (utility st h <=? 0)%Z) pool.
+
+(* _choose_gene(chosen_idx=None, genes_at_a_time=j): at most j pops; `batch` = the genes popped in
+   this call, in order (on the exception: up to and including the pop that raised).  The call
+   returns when j genes have been popped, or earlier when the list is empty or its last element has
+   utility <= 0 *)
 Fixpoint popk (j : nat) (st : state) (pool : list nat) (batch : list nat) : pres :=
   match j with
   | O => match batch with [] => POk st pool | _ :: _ => PIllegal end
   | S j' =>
       match pool with
-      | [] => match batch with [] => PErr KEmpty | _ :: _ => PIllegal end
+      | [] => (* len(sorted_utility_idx) == 0: break *)
+              match batch with [] => POk st pool | _ :: _ => PIllegal end
       | _ :: _ =>
           match batch with
-          | [] => PIllegal
+          | [] => (* the call returned here: legal iff the candidate had utility <= 0 *)
+                  if exhausted st pool then POk st pool else PIllegal
           | g :: b' =>
               if is_top st pool g then
-                if nmem g (chosen st)
+                if (utility st g <=? 0)%Z then PIllegal       (* the code breaks instead of popping g *)
+                else if nmem g (chosen st)
                 then match b' with [] => PErr (KTwice g) | _ :: _ => PIllegal end
                 else popk j' (choose st g) (pool_remove g pool) b'
               else PIllegal
@@ -123,8 +143,9 @@ Fixpoint popg (j : nat) (st : state) (pool : list nat) : gpop :=
   | O => GP st pool
   | S j' =>
       match first_top st pool with
-      | None => GPErr KEmpty
-      | Some g => if nmem g (chosen st) then GPErr (KTwice g)
+      | None => GP st pool                                   (* empty list: break *)
+      | Some g => if (utility st g <=? 0)%Z then GP st pool  (* candidate of utility <= 0: break *)
+                  else if nmem g (chosen st) then GPErr (KTwice g)
                   else popg j' (choose st g) (pool_remove g pool)
       end
   end.
@@ -140,9 +161,10 @@ Fixpoint greedyk (fuel : nat) (st : state) (pool : list nat) : gres :=
                 end
   end.
 
-(* ---------------- the part of C12's statement that survives k > 1 ---------------- *)
-(* no duplicates, every gene a gene of the thinned array (= in the query), coverage; the clause
-   "reference marker of a pair of the parent" of spec_c12 is dropped (refuted for k >= 2) *)
+(* ---------------- C12's statement without its "marker of a pair of the parent" clause ---------------- *)
+(* no duplicates, every gene a gene of the thinned array (= in the query), coverage.  Implied by
+   spec_c12 (Model/Selection.v), which holds on every completed run for every k
+   (Props/C12.v c12_batch_full_spec); kept because the harness reports the two separately *)
 Definition spec_c12_batch (sel : list nat) : bool :=
   nodup_b sel &&
   forallb (fun g => g <? n_genes) sel &&
@@ -156,7 +178,6 @@ Definition kres_chosen (r : kres) : option (list nat) := option_map (fun st => c
 (* ---------------- wire ---------------- *)
 Definition of_kerr (e : kerr) : sx :=
   match e with
-  | KEmpty => L [I 1%Z; I 10%Z]
   | KTwice g => L [I 1%Z; I 11%Z; of_nat g]
   end.
 
